@@ -83,5 +83,52 @@ def handle (j : Json) : Except String Json := do
                                  ("count", jOptNat sd.count), ("absent", .arr (sd.absent.map (fun n => Json.num (JsonNumber.fromNat n))).toArray)]
       pure (Json.mkObj [("ans", jAns x.2.1), ("how", .str (match x.2.2 with | .cached => "cached" | .loaded => "loaded")),
                         ("db", jAns (dbAnswer db r)), ("set", sdJ)])
+  | "loader" =>
+      let objs ← natList (← j.getObjVal? "objs")
+      let dvals ← parseVals (← argArr j "dbvals")
+      let dcolls ← parseColls (← argArr j "dbcolls")
+      let svals ← parseVals (← argArr j "vals")
+      let ssets ← parseSets (← argArr j "sets")
+      let db : Db := { objs := objs, val := fun o a => (lookup2 (o, a) dvals).join, coll := fun o c => (lookup2 (o, c) dcolls).getD [] }
+      let s : Sess := { vals := fun o a => lookup2 (o, a) svals, sets := fun o c => lookup2 (o, c) ssets }
+      -- schema: rowAttrs [[o, [a..]]], revColl [[a, r]], revM2M [[c, r]]
+      let rowA ← (← argArr j "rowAttrs").mapM fun x => do
+        match x with
+        | .arr #[o, as] => pure ((← fromJson? o : Nat), (← natList as))
+        | _ => throw "rowAttrs: [o, [a..]]"
+      let pairs (k : String) : Except String (List (Nat × Nat)) := do
+        (← argArr j k).mapM fun x => do
+          match x with
+          | .arr #[a, r] => pure ((← fromJson? a : Nat), (← fromJson? r : Nat))
+          | _ => throw s!"{k}: [a, r]"
+      let revC ← pairs "revColl"
+      let revO ← pairs "revOne"
+      let revM ← pairs "revM2M"
+      let sch : Schema := { rowAttrs := fun o => ((rowA.find? (fun x => x.1 == o)).map (·.2)).getD [],
+                            revColl := fun a => (revC.find? (fun x => x.1 == a)).map (·.2),
+                            revOne := fun a => (revO.find? (fun x => x.1 == a)).map (·.2),
+                            revM2M := fun c => ((revM.find? (fun x => x.1 == c)).map (·.2)).getD c }
+      let lj ← j.getObjVal? "loader"
+      let t ← argStr lj "t"
+      let l : Loader ← match t with
+        | "rows" => pure (.rows (← natList (← lj.getObjVal? "os")))
+        | "lazy" => pure (.lazyAttr (← argNat lj "o") (← argNat lj "a"))
+        | "collRows" => pure (.collRows (← natList (← lj.getObjVal? "owners")) (← argNat lj "c"))
+        | "collLinks" => pure (.collLinks (← natList (← lj.getObjVal? "owners")) (← argNat lj "c"))
+        | _ => throw s!"loader {t}"
+      let s' := applyLoader db sch s l
+      let valKeys ← parseVals (← argArr j "dbvals")      -- the universe of column attributes
+      let outVals := valKeys.filterMap fun kv => match s'.vals kv.1.1 kv.1.2 with
+        | none => none
+        | some v => some (Json.arr #[.num (JsonNumber.fromNat kv.1.1), .num (JsonNumber.fromNat kv.1.2), jOptInt v])
+      let setKeys ← (← argArr j "setkeys").mapM fun x => do
+        match x with
+        | .arr #[o, c] => pure ((← fromJson? o : Nat), (← fromJson? c : Nat))
+        | _ => throw "setkeys: [o, c]"
+      let outSets := setKeys.filterMap fun k => match s'.sets k.1 k.2 with
+        | none => none
+        | some sd => some (Json.arr #[.num (JsonNumber.fromNat k.1), .num (JsonNumber.fromNat k.2),
+                                      .arr ((canon db sd.items).map (fun n => Json.num (JsonNumber.fromNat n))).toArray, .bool sd.full, jOptNat sd.count])
+      pure (Json.mkObj [("vals", .arr outVals.toArray), ("sets", .arr outSets.toArray)])
   | _ => throw s!"unknown op {op}"
 end PonyVerif.Drive.C23
